@@ -180,6 +180,35 @@ fn case_day_after(pred: i64, day: i64, use_dt: bool, acc: &mut Acc) {
     }
 }
 
+/// the setters are a second way to "construct from a triple": at the two partial months at the ends
+/// of the range every candidate day / month / day of year must give exactly that date or be refused
+fn case_end_setter(day: i64, setter: u8, v: u32, use_dt: bool, acc: &mut Acc) {
+    let (y, m, d) = cal::ymd(day);
+    let want: Option<i64> = match setter {
+        0 => cal::valid_day(y, m, v),
+        1 => cal::valid_day(y, v, d),
+        _ => cal::astro(y).and_then(|a| {
+            let t = cal::days_from_civil(a, 1, 1) + v as i64 - 1;
+            (v >= 1 && v <= cal::year_len(a) && (cal::MIN_DAY..=cal::MAX_DAY).contains(&t)).then_some(t)
+        }),
+    };
+    acc.transitions += 1;
+    acc.states += 1;
+    let ts = (day - cal::DAYS_TO_1970) * 86_400;
+    let got: Out<Option<i64>> = if use_dt {
+        let x = DateTime::from_timestamp(ts);
+        call(|| match setter { 0 => x.set_day(v), 1 => x.set_month(v), _ => x.set_day_of_year(v) }.ok().map(|r| r.timestamp().div_euclid(86_400) + cal::DAYS_TO_1970))
+    } else {
+        let x = Date::from_timestamp(ts);
+        call(|| match setter { 0 => x.set_day(v), 1 => x.set_month(v), _ => x.set_day_of_year(v) }.ok().map(|r| date_day(&r)))
+    };
+    if got == Out::Val(want) {
+        acc.branch(if want.is_some() { "end-setter-accepted" } else { "end-setter-refused" });
+    } else {
+        acc.violation(&format!("{}::set_{}", if use_dt { "DateTime" } else { "Date" }, ["day", "month", "day_of_year"][setter as usize]), "range-end-triple-accepted-or-wrong-day", json!({"end_setter": setter, "day": day, "v": v, "datetime": use_dt}), format!("{:?}", want), got.show());
+    }
+}
+
 const ANCHOR_DAY: i64 = 738_276; // 2022-05-02
 fn anchor_probe(pred: i64, use_dt: bool, acc: &mut Acc) {
     let ts = (ANCHOR_DAY - cal::DAYS_TO_1970) * 86_400;
@@ -223,6 +252,17 @@ pub fn run(ctx: &Ctx) -> i32 {
         let d = hdays[(i / 2 % nh) as usize];
         case_day_after(d + dist[(i / (2 * nh)) as usize], d, i % 2 == 1, acc);
     });
+    // (a3) the setters at both ends of the range (the partial first and last month / year)
+    let ends: Vec<i64> = (0..40).map(|k| cal::MIN_DAY + k).chain((0..40).map(|k| cal::MAX_DAY - k)).chain([cal::MIN_DAY + 192, cal::MAX_DAY - 193, cal::MAX_DAY - 400, cal::MIN_DAY + 400]).collect();
+    let ne = ends.len() as u64;
+    rep.sweep("setters at the range ends: 84 days x {set_day 0..=32, set_month 0..=13, set_day_of_year 0..=367} x {Date, DateTime}", ne * (33 + 14 + 368) * 2, "", |i, acc| {
+        let use_dt = i % 2 == 1;
+        let r = i / 2;
+        let day = ends[(r / 415) as usize];
+        let k = r % 415;
+        let (setter, v) = if k < 33 { (0u8, k as u32) } else if k < 47 { (1, (k - 33) as u32) } else { (2, (k - 47) as u32) };
+        case_end_setter(day, setter, v, use_dt, acc);
+    });
     // (b) triples
     if ctx.thorough && checked {
         sweep_triples(&mut rep, "triples:all-years:Date", &[(-5_879_612, 5_879_612)], false);
@@ -240,6 +280,10 @@ pub fn run(ctx: &Ctx) -> i32 {
 
 pub fn replay(op: &str, case: &Value, acc: &mut Acc) -> bool {
     let use_dt = case["datetime"].as_bool().unwrap_or(false);
+    if let (Some(setter), Some(day), Some(v)) = (case["end_setter"].as_u64(), case["day"].as_i64(), case["v"].as_u64()) {
+        case_end_setter(day, setter as u8, v as u32, use_dt, acc);
+        return true;
+    }
     if let (Some(day), Some(pred)) = (case["day"].as_i64(), case["pred"].as_i64()) {
         case_day_after(pred, day, use_dt, acc);
         return true;
